@@ -7,17 +7,30 @@
    TaskManager gives state s and event trace ev; `reachable` = s is such a state.  An entry
    is (due time, TaskManager counter at installation, task).  `fired ev` = the entries fired in ev,
    in order.  guard = true is the tree with the per-call guard in the deferred loop (the fix:
-   commit); jit is the 1 us jitter of RecurringTask in clock ticks. *)
-From Bac Require Import Base Deferred DeferredFacts Sched SchedFacts SchedThms SchedOrder SchedRun SchedC14.
+   commit); jit is the 1 us jitter of RecurringTask in clock ticks.
+   Callbacks (of tasks and of deferred functions) may defer functions AND perform scheduling
+   actions (install / re-install / suspend / resume of themselves or of other tasks).
+   `passive_cfg c` / `passive_dq s`: no callback of the configuration / of the queued deferred
+   functions has a scheduling action.  Ghost events: `EvPop e rest` (e popped, rest stayed queued),
+   `EvInst i auto` (install_task succeeded for i; auto = re-install of a recurring task by process_task). *)
+From Bac Require Import Base Deferred DeferredFacts Sched SchedFacts SchedThms SchedPassive SchedOrder SchedRun SchedC14.
 From Coq Require Import Permutation Sorted.
 Open Scope Z_scope.
 
-(* within one run_once pass or one core.run: strictly increasing (due, install counter) *)
-Theorem C14_fire_order : forall guard jit c s s' ev, 0 <= jit -> reachable guard jit c s ->
+(* callbacks without scheduling actions: within one run_once pass or one core.run the firings are
+   strictly increasing in (due, install counter) *)
+Theorem C14_fire_order : forall guard jit c s s' ev, passive_cfg c -> passive_dq s -> 0 <= jit -> reachable guard jit c s ->
   (run_once guard jit c s = (s', ev) \/ run guard jit c s = (s', ev)) ->
   StronglySorted key_lt (fired ev) /\ forall k, In k (fired ev) -> e_when k <= now s.
 Proof. exact c14_fire_order. Qed.
 Print Assumptions C14_fire_order.
+
+(* any program (callbacks may install / suspend anything): at every firing of every history the
+   entry fired is smaller in (due, install counter) than every entry that stayed queued *)
+Theorem C14_fire_least_pending : forall guard jit c ops s ev, run_ops guard jit c st0 ops = (s, ev) ->
+  forall e rest, In (EvPop e rest) ev -> forall y, In y rest -> key_lt e y.
+Proof. exact c14_fire_least_pending. Qed.
+Print Assumptions C14_fire_least_pending.
 
 (* whatever get_next_task hands out is the least of the queue *)
 Theorem C14_fire_is_min : forall guard jit c s e s1 z, reachable guard jit c s ->
@@ -36,13 +49,26 @@ Theorem C14_once_per_install : forall guard jit c ops s ev, run_ops guard jit c 
 Proof. exact c14_once_per_install. Qed.
 Print Assumptions C14_once_per_install.
 
-(* after suspend, whatever else happens, the task does not fire until it is installed/resumed *)
-Theorem C14_suspend_cancels : forall guard jit c s i ops s' ev, reachable guard jit c s ->
-  forallb (fun o => negb (installs i o)) ops = true ->
+(* "does not fire after being suspended" is false of the code when the suspend comes from the
+   task's own callback: process_task re-installs a recurring task unconditionally.  Witness: a
+   recurring task whose callback suspends itself fires at slot 10 and again at slot 20; between
+   the two firings the only installation recorded is the automatic one.  (finding
+   C14-recurring-self-suspend-rearmed) *)
+Theorem C14_suspend_cancels_refuted :
+  exists ops a b d due n at_ due' n' at',
+    t_acts (cfg_get self_suspender 0) = [ASuspend 0] /\
+    snd (run_ops true 1 self_suspender st0 ops) = a ++ EvFire 0 due n at_ :: b ++ EvFire 0 due' n' at' :: d /\
+    forallb (fun x => negb (is_inst 0 x) || match x with EvInst _ auto => auto | _ => false end) b = true.
+Proof. exact c14_self_suspend_refuted. Qed.
+Print Assumptions C14_suspend_cancels_refuted.
+
+(* _partial: after suspend, in any continuation by any program, the task does not fire unless an
+   installation of it (by the history, by a callback, or the automatic one) is recorded *)
+Theorem C14_suspend_cancels_partial : forall guard jit c s i ops s' ev, reachable guard jit c s ->
   run_ops guard jit c s (Suspend i :: ops) = (s', ev) ->
-  forall due n at_, ~ In (EvFire i due n at_) ev.
+  has_inst i ev = false -> forall due n at_, ~ In (EvFire i due n at_) ev.
 Proof. exact c14_suspend_cancels. Qed.
-Print Assumptions C14_suspend_cancels.
+Print Assumptions C14_suspend_cancels_partial.
 
 (* at most one queue entry per task; installing leaves exactly the new one *)
 Theorem C14_reinstall_moves : forall guard jit c s, reachable guard jit c s ->
@@ -62,7 +88,7 @@ Theorem C14_recurring_slots_partial : forall jit iv off, 0 < iv -> 0 <= jit ->
                        (forall m, t + jit < off + iv * m -> k <= m) /\ t < next_slot jit iv off t) /\
   (jit < iv -> forall k, next_slot jit iv off (off + iv * k) = off + iv * (k + 1)) /\
   (forall k t, off + iv * k <= t + jit < off + iv * (k + 1) -> next_slot jit iv off t = off + iv * (k + 1)) /\
-  (forall guard c s e s1 z s2 ev r, reachable guard jit c s -> get_next_task s = (Some e, s1, z) ->
+  (forall guard c s e s1 z s2 ev r, passive_cfg c -> passive_dq s -> reachable guard jit c s -> get_next_task s = (Some e, s1, z) ->
      process_task jit c s1 e = (s2, ev, r) -> t_kind (cfg_get c (e_tid e)) = Recurring iv off ->
      t_raises (cfg_get c (e_tid e)) = false ->
      In (next_slot jit iv off (now s), ctr s, e_tid e) (heap s2)).
@@ -78,6 +104,13 @@ Theorem C14_deferred_once_in_order : forall q,
 Proof. exact c14_deferred_once_in_order. Qed.
 Print Assumptions C14_deferred_once_in_order.
 
+(* the loop of the model, whatever the callbacks do to the schedule: ends with an empty queue and
+   calls, in order, exactly the functions the pure loop above calls *)
+Theorem C14_deferred_loop_calls : forall jit c s s' ev x, do_drain true jit c s = (s', ev, x) ->
+  exists L, drain_all true (dq s) = (L, [], DDone) /\ x = false /\ dq s' = [] /\ calls_of ev = map d_id L.
+Proof. exact c14_deferred_loop_calls. Qed.
+Print Assumptions C14_deferred_loop_calls.
+
 (* the pinned tree (no per-call guard): [raising; plain] — plain is neither called nor queued *)
 Theorem C14_deferred_unguarded_refuted :
   exists q d, In d q /\ (let '(c, r, s) := drain_all false q in ~ In d c /\ ~ In d r /\ s = DRaised).
@@ -90,7 +123,7 @@ Theorem C14_deferred_unguarded_partial : forall fuel q,
 Proof. exact c14_deferred_unguarded_partial. Qed.
 Print Assumptions C14_deferred_unguarded_partial.
 
-Theorem C14_task_exception_isolated : forall jit c s, 0 <= jit -> reachable true jit c s ->
+Theorem C14_task_exception_isolated : forall jit c s, passive_cfg c -> passive_dq s -> 0 <= jit -> reachable true jit c s ->
   (forall e s1, t_raises (cfg_get c (e_tid e)) = true ->
      process_task jit c s1 e = (set_dq s1 (dq s1 ++ t_defers (cfg_get c (e_tid e))), [fire_of s1 e], true)) /\
   (forall s' ev, run_once true jit c s = (s', ev) -> forall x, In x (heap s) -> In x (heap s') \/ In x (fired ev)) /\
@@ -104,7 +137,7 @@ Print Assumptions C14_task_exception_isolated.
 
 (* core.run (spin 0, no sockets): ends within its fuel with nothing due and nothing deferred; every
    entry that was due has fired, whichever callbacks raised *)
-Theorem C14_run_fires_all_due : forall jit c s s' ev, 0 <= jit -> reachable true jit c s ->
+Theorem C14_run_fires_all_due : forall jit c s s' ev, passive_cfg c -> passive_dq s -> 0 <= jit -> reachable true jit c s ->
   run true jit c s = (s', ev) ->
   ~ In (EvErr OutOfFuel) ev /\ dq s' = [] /\ due_count s' = 0%nat /\
   forall x, In x (heap s) -> e_when x <= now s -> In x (fired ev).
@@ -113,37 +146,51 @@ Print Assumptions C14_run_fires_all_due.
 
 (* ---- non-vacuity ---- *)
 Definition ex_cfg : cfg :=
-  [mkT OneShot false []; mkT OneShot true [DF 7 true []; DF 8 false []]; mkT OneShot false [];
-   mkT (Recurring 300000 1000) false []].
+  [mkT OneShot false [] []; mkT OneShot true [DF 7 true [] []; DF 8 false [] []] []; mkT OneShot false [] [];
+   mkT (Recurring 300000 1000) false [] []].
 Definition ex_ops : list op :=
   [Install 2 5; Install 0 5; Install 1 5; Reinstall 3; Install 2 5; Suspend 0; Resume 0; Advance 5].
+Definition visible (ev : list event) : list event := filter (fun x => negb (is_ghost x)) ev.
 
+Example C14_ex_passive : passive_cfg ex_cfg.
+Proof. intros i. do 5 (destruct i as [|i]; [split; reflexivity|]). split; destruct i; reflexivity. Qed.
 (* a reachable state with three colliding due entries (one of them raising) and a recurring one *)
 Example C14_ex_reachable : reachable true 3 ex_cfg (fst (run_ops true 3 ex_cfg st0 ex_ops)).
 Proof. exists ex_ops, (snd (run_ops true 3 ex_cfg st0 ex_ops)). apply surjective_pairing. Qed.
-Example C14_ex_due : due_count (fst (run_ops true 3 ex_cfg st0 ex_ops)) = 3%nat.
-Proof. vm_compute. reflexivity. Qed.
+Example C14_ex_due : due_count (fst (run_ops true 3 ex_cfg st0 ex_ops)) = 3%nat
+                     /\ passive_dq (fst (run_ops true 3 ex_cfg st0 ex_ops)).
+Proof. vm_compute. split; reflexivity. Qed.
 (* first pass: task 1 (installed 3rd, counter 2) fires first, raises, the pass ends; second pass:
    its deferred functions 7 (raising) and 8 run, then tasks 2 (counter 4) and 0 (re-installed by
    resume, counter 5) in that order *)
 Example C14_ex_passes :
-  snd (run_ops true 3 ex_cfg st0 (ex_ops ++ [RunOnce; RunOnce]))
+  visible (snd (run_ops true 3 ex_cfg st0 (ex_ops ++ [RunOnce; RunOnce])))
   = [EvFire 1 5 2 5; EvRaise; EvFire 2 5 4 5; EvCall 7; EvRaise; EvCall 8; EvFire 0 5 5 5].
 Proof. vm_compute. reflexivity. Qed.
-(* the recurring task (interval 300000 ticks, offset 1000) installed at clock 0 is due at its first slot *)
 (* core.run from the same state: every try is per iteration, so all three fire in one call *)
 Example C14_ex_run :
-  snd (run_ops true 3 ex_cfg st0 (ex_ops ++ [Run]))
+  visible (snd (run_ops true 3 ex_cfg st0 (ex_ops ++ [Run])))
   = [EvFire 1 5 2 5; EvRaise; EvFire 2 5 4 5; EvCall 7; EvRaise; EvCall 8; EvFire 0 5 5 5].
 Proof. vm_compute. reflexivity. Qed.
 Example C14_ex_recurring :
   heap (fst (run_ops true 3 ex_cfg st0 [Reinstall 3; ToDue; Poll; ToDue; Poll]))
   = [(601000, 2%N, 3%nat)].
 Proof. vm_compute. reflexivity. Qed.
+(* callbacks with actions: task 0 installs task 1 at an earlier time than its own; task 1's deferred
+   function re-installs task 0; the trace shows the pops with what stayed queued *)
+Example C14_ex_actions :
+  snd (run_ops true 1 [mkT OneShot false [] [AInstall 1 2]; mkT OneShot false [DF 0 false [] [AInstallAfter 0 1]] []] st0
+         [Install 0 5; Advance 5; RunOnce; RunOnce])
+  = [EvInst 0 false; EvPop (5, 0%N, 0%nat) []; EvFire 0 5 0 5; EvInst 1 false;
+     EvPop (2, 1%N, 1%nat) []; EvFire 1 2 1 5; EvCall 0; EvInst 0 false].
+Proof. vm_compute. reflexivity. Qed.
+(* the hypothesis of C14_suspend_cancels_partial is satisfiable: no installation of task 0 below *)
 Example C14_ex_suspend_hyp :
-  forallb (fun o => negb (installs 0 o)) [Advance 9; RunOnce; Install 1 3; Run] = true.
-Proof. reflexivity. Qed.
+  has_inst 0 (snd (run_ops true 1 [mkT OneShot false [] []; mkT OneShot false [] [ASuspend 0]]
+                     (fst (run_ops true 1 [mkT OneShot false [] []; mkT OneShot false [] [ASuspend 0]] st0 [Install 0 3; Install 1 3]))
+                     [Suspend 0; Advance 9; RunOnce])) = false.
+Proof. vm_compute. reflexivity. Qed.
 Example C14_ex_deferred :
-  drain_all true [DF 0 true [DF 2 false []]; DF 1 false [DF 3 true []]]
-  = ([DF 0 true [DF 2 false []]; DF 1 false [DF 3 true []]; DF 2 false []; DF 3 true []], [], DDone).
+  drain_all true [DF 0 true [DF 2 false [] []] []; DF 1 false [DF 3 true [] []] [ASuspend 0]]
+  = ([DF 0 true [DF 2 false [] []] []; DF 1 false [DF 3 true [] []] [ASuspend 0]; DF 2 false [] []; DF 3 true [] []], [], DDone).
 Proof. vm_compute. reflexivity. Qed.
